@@ -292,14 +292,12 @@ double Interpolation::Local_Minimum(double x_1, double x_2)
 	double f_right = Interpolate(x_2);
 	int i_1		   = Locate(x_1);
 	int i_2		   = Locate(x_2);
-	if(i_1 == i_2)
-		return std::min(f_left, f_right);
-	else
-	{
-		// Find the smallest value of function_values between i_1+1 and i_2.
-		double min_entry = *std::min_element(function_values.begin() + i_1 + 1, function_values.begin() + i_2);
-		return std::min({f_left, min_entry, f_right});
-	}
+	// The curve is monotone between adjacent abscissae, hence the minimum is taken at an end point or at a tabulated abscissa inside [x_1,x_2].
+	double minimum = std::min(f_left, f_right);
+	for(int i = i_1; i <= i_2 + 1; i++)
+		if(x_values[i] >= x_1 && x_values[i] <= x_2)
+			minimum = std::min(minimum, prefactor * function_values[i]);
+	return minimum;
 }
 
 double Interpolation::Local_Maximum(double x_1, double x_2)
@@ -309,24 +307,26 @@ double Interpolation::Local_Maximum(double x_1, double x_2)
 	double f_right = Interpolate(x_2);
 	int i_1		   = Locate(x_1);
 	int i_2		   = Locate(x_2);
-	if(i_1 == i_2)
-		return std::max(f_left, f_right);
-	else
-	{
-		// Find the largest value of function_values between i_1+1 and i_2.
-		double max_entry = *std::max_element(function_values.begin() + i_1 + 1, function_values.begin() + i_2);
-		return std::max({f_left, max_entry, f_right});
-	}
+	// The curve is monotone between adjacent abscissae, hence the maximum is taken at an end point or at a tabulated abscissa inside [x_1,x_2].
+	double maximum = std::max(f_left, f_right);
+	for(int i = i_1; i <= i_2 + 1; i++)
+		if(x_values[i] >= x_1 && x_values[i] <= x_2)
+			maximum = std::max(maximum, prefactor * function_values[i]);
+	return maximum;
 }
 
 double Interpolation::Global_Minimum()
 {
-	return *std::min_element(function_values.begin(), function_values.end());
+	double f_min = *std::min_element(function_values.begin(), function_values.end());
+	double f_max = *std::max_element(function_values.begin(), function_values.end());
+	return std::min(prefactor * f_min, prefactor * f_max);
 }
 
 double Interpolation::Global_Maximum()
 {
-	return *std::max_element(function_values.begin(), function_values.end());
+	double f_min = *std::min_element(function_values.begin(), function_values.end());
+	double f_max = *std::max_element(function_values.begin(), function_values.end());
+	return std::max(prefactor * f_min, prefactor * f_max);
 }
 
 void Interpolation::Save_Function(std::string filename, unsigned int points)
@@ -447,17 +447,27 @@ void Interpolation_2D::Multiply(double factor)
 // Function properties
 double Interpolation_2D::Global_Minimum()
 {
-	std::vector<double> row_minima;
+	std::vector<double> row_minima, row_maxima;
 	for(auto& row : function_values)
+	{
 		row_minima.push_back(*std::min_element(row.begin(), row.end()));
-	return *std::min_element(row_minima.begin(), row_minima.end());
+		row_maxima.push_back(*std::max_element(row.begin(), row.end()));
+	}
+	double f_min = *std::min_element(row_minima.begin(), row_minima.end());
+	double f_max = *std::max_element(row_maxima.begin(), row_maxima.end());
+	return std::min(prefactor * f_min, prefactor * f_max);
 }
 double Interpolation_2D::Global_Maximum()
 {
-	std::vector<double> row_maxima;
+	std::vector<double> row_minima, row_maxima;
 	for(auto& row : function_values)
+	{
+		row_minima.push_back(*std::min_element(row.begin(), row.end()));
 		row_maxima.push_back(*std::max_element(row.begin(), row.end()));
-	return *std::max_element(row_maxima.begin(), row_maxima.end());
+	}
+	double f_min = *std::min_element(row_minima.begin(), row_minima.end());
+	double f_max = *std::max_element(row_maxima.begin(), row_maxima.end());
+	return std::max(prefactor * f_min, prefactor * f_max);
 }
 
 void Interpolation_2D::Save_Function(std::string filename, unsigned int x_points, unsigned int y_points)
